@@ -156,7 +156,7 @@ class SCSI(object):
 
         :param lba: starting lba
         :param kwargs: a dict with key/value pairs
-                       alloc_len = 16384: size of requested datain
+                       alloclen = 16384: size of requested datain
         :return: a GetLBAStatus instance
         """
         opcode = next(get_opcode(self.device.opcodes, "9E"))
@@ -199,7 +199,7 @@ class SCSI(object):
         :param elements: two byte representing a range of elements that should be
                          initialized
         :param kwargs: a dict with key/value pairs
-                       range = 0, a integer indicating if elements should be ignored
+                       rng = 0, a integer indicating if elements should be ignored
                        fast = 0, a integer indicating if  elements should be scanned for
                                  media presence
         :return: a InitializeElementStatusWithRange instance
@@ -382,7 +382,7 @@ class SCSI(object):
         Returns a ReadCapacity10 Instance
 
         :param kwargs: a dict with key/value pairs
-                       alloc_len = 8, size of requested datain
+                       alloclen = 8, size of requested datain
         :return: a ReadCapacity10 instance
         """
         opcode = self.device.opcodes.READ_CAPACITY_10
@@ -396,7 +396,7 @@ class SCSI(object):
         Returns a ReadCapacity16 Instance
 
         :param kwargs: a dict with key/value pairs
-                       alloc_len = 32, size of requested datain
+                       alloclen = 32, size of requested datain
         :return: a ReadCapacity16 instance
         """
         opcode = next(get_opcode(self.device.opcodes, "9E"))
@@ -415,7 +415,7 @@ class SCSI(object):
                        est=0: Expected Sector Type
                        dap=0: Digital Audio Play
                        mcsb=0: Main Channel Selection Bits
-                       c2e1=0: C2 Error Information
+                       c2ei=0: C2 Error Information
                        scsb=0: Sub-Channel Selection Bits
         :return: a ReadCd instance
         """
